@@ -306,6 +306,7 @@ func (c *Ctx) Bounded(limit time.Duration, what string, f func()) (returned bool
 	done := make(chan interface{}, 1)
 	go func() {
 		defer func() { done <- recover() }()
+		debug.SetPanicOnFault(true) // per goroutine: guard-page faults stay recoverable here too
 		f()
 	}()
 	t := time.NewTimer(limit)
